@@ -343,7 +343,11 @@ impl Prop for C26 {
          answered request: ranges of every length 1..130 and random lengths up to 2000 (thorough: every length 1..2000) \
          at random start heights; schedulers FIFO / LIFO / random; answers full, proper prefixes, empty, one header at a \
          time, every HeaderEx error kind; plus out-of-property streams (over-long answers, wrong heights, fatal errors, \
-         empty ranges, stale events) and direct take_next_batch calls incl. limit 0, None and u64::MAX boundaries. \
+         empty ranges, stale events) and direct take_next_batch calls incl. limit 0, None and u64::MAX boundaries; S10 \
+         size-threshold sessions (tags thr/…): lengths 55..57, 255..257, 503..505, 511..513, 519..521, 575..577, 1023..1025, \
+         2000, 2001, 2047..2049, 2499, 2600, 2690 (every boundary of the 8..=64 batch-size clamp and of the 8 concurrent \
+         requests, powers of two +-1, 2000+ headers), full answers in the three orderings plus the random mix for 511..513 \
+         (thorough: all), and take_next_batch at limits 127..129 / 511..513 with ranges of limit-1 / limit / limit+1 / 2*limit / 2000+. \
          Non-trivial = every session op (start / answered request); distinct = distinct (op, result) lines."
     }
     fn gen_ops(&mut self, rng: &mut Rng, tier: Tier, out: &mut Emitter) {
@@ -400,6 +404,29 @@ impl Prop for C26 {
             };
             let len = if mode == 6 { len.min(120) } else { len };
             self.gen_session(rng, out, s, s + len - 1, mode, "rnd");
+        }
+        // S10 size-threshold stress: range lengths straddling every boundary of the batch-size clamp
+        // (ceil(len/8) clamped to 8..=64: 56/57, 64/65, 504/505, 512/513), of the 8 concurrent requests
+        // (8*64 = 512, 9*64 = 576) and powers of two, plus 2000+ header ranges; full answers in the three
+        // orderings, and the random mix (prefixes / empties / errors) for 511/512/513 (thorough: for all)
+        let thr: [u64; 29] = [
+            55, 56, 57, 255, 256, 257, 503, 504, 505, 511, 512, 513, 519, 520, 521, 575, 576, 577, 1023, 1024, 1025, 2000, 2001,
+            2047, 2048, 2049, 2499, 2600, 2690,
+        ];
+        for (k, &len) in thr.iter().enumerate() {
+            let s = if k % 2 == 0 { 1 } else { rng.range(1, POOL - len - 9) };
+            self.gen_session(rng, out, s, s + len - 1, (k % 3) as u64, "thr");
+            if thorough || (511..=513).contains(&len) {
+                let s = rng.range(1, POOL - len - 9);
+                self.gen_session(rng, out, s, s + len - 1, 3, "thr-mix");
+            }
+        }
+        // take_next_batch at limits 127..129 / 511..513 with ranges of limit-1, limit, limit+1, 2*limit and 2000+ heights
+        for limit in [127u64, 128, 129, 511, 512, 513] {
+            for l in [limit - 1, limit, limit + 1, 2 * limit, 2 * limit + 1, 2000 + rng.below(700)] {
+                let s = rng.range(0, 50);
+                out.op(format!("tnb r={s}-{} limit={limit}", s + l - 1), "thr/tnb", true);
+            }
         }
         // empty ranges (outside the property: the session asks for 0 headers and retries)
         for _ in 0..3 {
